@@ -421,7 +421,7 @@ func (m *wasmModule) decode(c *wasmCode) error {
 			case op == 0x1C:
 				n := int(r.u32())
 				r.bytes(n)
-			case op >= 0x20 && op <= 0x24:
+			case op >= 0x20 && op <= 0x26:
 				in.A = uint64(r.u32())
 			case op >= 0x28 && op <= 0x3E:
 				in.A = uint64(r.u32()) // align
